@@ -24,7 +24,7 @@ PY = "/venv/bin/python"
 GUARD = "XRSPATIAL_VERIF"
 
 _STATES_RE = re.compile(r"(\d+) states generated, (\d+) distinct states found")
-_VERDICT_RE = re.compile(r'<<"VERDICT", (\d+), "([^"]*)"(?:, "([^"]*)")?>>')
+_VERDICT_RE = re.compile(r'<<\s*"VERDICT",\s*(\d+),\s*"([^"]*)"(?:,\s*"([^"]*)")?\s*>>')
 
 
 class MachineryError(Exception):
@@ -370,8 +370,9 @@ class Ctx:
         d = os.path.join(VERIF, "replay", self.prop_id)
         os.makedirs(d, exist_ok=True)
         path = os.path.join(d, "%s.json" % h)
-        with open(path, "w") as f:
-            f.write(blob)
+        if len(self.violations) < 40:
+            with open(path, "w") as f:
+                f.write(blob)
         self.violations.append((key, clause, path))
         if len(self.violations) <= 20:
             print("VIOLATION property=%s replay=%s   # clause=%s key=%s %s"
@@ -414,7 +415,7 @@ class Ctx:
         os.makedirs(os.path.join(VERIF, "evidence"), exist_ok=True)
         with open(os.path.join(VERIF, "evidence", "%s.json" % self.prop_id), "w") as f:
             json.dump(ev, f, indent=1, default=str)
-        shutil.rmtree(self.scratch, ignore_errors=True)
+        self.cleanup()
         print("%s %s: states=%d transitions=%d traces=%d nontrivial=%d violations=%d known=%d drift=%d wall=%.0fs"
               % (self.prop_id, self.tier, self.states, self.transitions, self.traces,
                  len(self.nontrivial_keys), len(self.violations), sum(self.known_hits.values()),
@@ -422,7 +423,10 @@ class Ctx:
         return 1 if self.violations else 0
 
     def cleanup(self):
-        shutil.rmtree(self.scratch, ignore_errors=True)
+        if os.environ.get("VERIF_KEEP") == "1":
+            print("scratch kept at " + self.scratch)
+        else:
+            shutil.rmtree(self.scratch, ignore_errors=True)
 
 
 # ---------------------------------------------------------------------- helpers for drivers
